@@ -190,3 +190,15 @@ package types
 //@ ensures-assumed identity: result == ethtx_paid(d, seq) && result != nil
 //@ opt nooverflow=1
 //@ modifies nothing
+
+//@ func NewRejectEthTx
+//@ property C05 C06
+//@ ensures-assumed identity: result == ethtx_reject(wid, seq) && result != nil
+//@ opt nooverflow=1
+//@ modifies nothing
+
+//@ func NewBitcoinHashEthTx
+//@ property C06
+//@ ensures-assumed identity: result == ethtx_hash(seq, hash) && result != nil
+//@ opt nooverflow=1
+//@ modifies nothing
